@@ -109,9 +109,10 @@ func diffFP(want, got objFP) []string {
 }
 
 type mObj struct {
-	FP   objFP
-	ETag string // as returned by the accepting call (queued put) or by a later head
-	Size int
+	FP    objFP
+	ETag  string // as returned by the accepting call (queued put) or by a later head
+	Size  int
+	Bytes []byte // content (needed to extend it by an append)
 }
 
 type mBucket struct {
